@@ -357,6 +357,296 @@ theorem parseItems_bad (ps : List Param) : ∀ (opt fo : Bool) (pos : List Val) 
       simp only [fmtItems, hv', Bool.false_eq_true, if_false]
       exact ih opt fo pos kw h
 
+/-! ### converse: the switch is right only for a filled prefix -/
+
+theorem defaultCalls_bounds (ps : List Param) : ∀ (npy nc : Nat) (e : Nat × Nat),
+    e ∈ defaultCalls npy nc ps → npy ≤ e.1 ∧ nc ≤ e.2 ∧ e.2 ≤ nc + ps.length := by
+  induction ps with
+  | nil =>
+    intro npy nc e he
+    simp only [defaultCalls, List.mem_singleton] at he
+    subst he
+    simp
+  | cons p ps ih =>
+    intro npy nc e he
+    by_cases hv : p.vis = true
+    · by_cases hd : p.hasDefault = true
+      · simp only [defaultCalls, hv, hd, if_true, List.mem_cons] at he
+        rcases he with he | he
+        · subst he; simp
+        · have := ih (npy + 1) (nc + 1) e he
+          simp only [List.length_cons]; omega
+      · have hd' : p.hasDefault = false := by simpa using hd
+        simp only [defaultCalls, hv, hd', if_true, Bool.false_eq_true, if_false] at he
+        have := ih (npy + 1) (nc + 1) e he
+        simp only [List.length_cons]; omega
+    · have hv' : p.vis = false := by simpa using hv
+      simp only [defaultCalls, hv', Bool.false_eq_true, if_false] at he
+      have := ih npy (nc + 1) e he
+      simp only [List.length_cons]; omega
+
+/-- only defaults asked for and everything optional: no slot was filled. -/
+theorem all_none_of_spec_dflt : ∀ (ps : List Param) (slots : List (Option Val)),
+    allOpt ps = true → missingOk ps slots = true →
+    specArgs ps slots = List.replicate ps.length .dflt → slots.all (·.isNone) = true
+  | [], slots, _, hm, _ => by
+    have : slots = [] := by simpa [missingOk] using hm
+    subst this; rfl
+  | p :: ps, slots, h, hm, hs => by
+    simp only [allOpt, List.all_cons, Bool.and_eq_true] at h
+    have hv := h.1.1
+    cases slots with
+    | nil => simp [missingOk, hv] at hm
+    | cons s r =>
+      cases s with
+      | some v => simp [specArgs, hv, List.replicate_succ] at hs
+      | none =>
+        have hm' : missingOk ps r = true := by
+          simp only [missingOk, hv, if_true, Bool.and_eq_true] at hm
+          exact hm.2
+        have hs' : specArgs ps r = List.replicate ps.length .dflt := by
+          simpa [specArgs, hv, List.replicate_succ] using hs
+        have := all_none_of_spec_dflt ps r (by simpa [allOpt] using h.2) hm' hs'
+        simpa using this
+
+/-- if the selected `case` happens to pass what the specification asks for, then exactly the first
+`j` slots were filled. -/
+theorem switch_exact (ps : List Param) : ∀ (npy nc j : Nat) (slots : List (Option Val)) (e : Nat × Nat),
+    trailing ps = true → missingOk ps slots = true →
+    (defaultCalls npy nc ps).find? (fun c => c.1 == npy + j) = some e →
+    callArgs (ps.take (e.2 - nc)) slots ++ List.replicate (ps.length - (e.2 - nc)) .dflt = specArgs ps slots →
+    prefixMask j slots = true := by
+  induction ps with
+  | nil =>
+    intro npy nc j slots e _ hm hfind _
+    have hs : slots = [] := by simpa [missingOk] using hm
+    subst hs
+    simp only [defaultCalls, List.find?_cons, List.find?_nil] at hfind
+    split at hfind
+    · rename_i hh
+      have : j = 0 := by
+        simp only [beq_iff_eq] at hh; omega
+      subst this; rfl
+    · cases hfind
+  | cons p ps ih =>
+    intro npy nc j slots e htr hm hfind heq
+    have hmem := List.mem_of_find?_eq_some hfind
+    have hb := defaultCalls_bounds (p :: ps) npy nc e hmem
+    by_cases hv : p.vis = true
+    · cases slots with
+      | nil => simp [missingOk, hv] at hm
+      | cons s r =>
+        have hm' : missingOk ps r = true := by
+          cases s with
+          | none =>
+            simp only [missingOk, hv, if_true, Bool.and_eq_true] at hm
+            exact hm.2
+          | some v => simpa [missingOk, hv] using hm
+        have htr' : trailing ps = true := by
+          by_cases hd : p.hasDefault = true
+          · exact trailing_of_allOpt ps (by simpa [trailing, hv, hd, allOpt] using htr)
+          · have hd' : p.hasDefault = false := by simpa using hd
+            simpa [trailing, hv, hd'] using htr
+        cases j with
+        | zero =>
+          by_cases hd : p.hasDefault = true
+          · -- `case npy` found at the head
+            have he : e = (npy, nc) := by
+              simp only [defaultCalls, hv, hd, if_true, List.find?_cons, Nat.add_zero, beq_self_eq_true] at hfind
+              exact (Option.some.inj hfind).symm
+            subst he
+            have hall : allOpt ps = true := by simpa [trailing, hv, hd, allOpt] using htr
+            simp only [Nat.sub_self, List.take_zero, callArgs, List.nil_append, Nat.sub_zero, List.length_cons,
+              List.replicate_succ] at heq
+            cases s with
+            | some v => simp [specArgs, hv] at heq
+            | none =>
+              have hs' : specArgs ps r = List.replicate ps.length .dflt := by
+                simp only [specArgs, hv, if_true, List.cons.injEq, true_and] at heq
+                exact heq.symm
+              have := all_none_of_spec_dflt ps r hall hm' hs'
+              simpa [prefixMask] using this
+          · have hd' : p.hasDefault = false := by simpa using hd
+            simp only [defaultCalls, hv, hd', if_true, Bool.false_eq_true, if_false] at hmem
+            have := defaultCalls_bounds ps (npy + 1) (nc + 1) e hmem
+            have hp := List.find?_some hfind
+            simp only [beq_iff_eq] at hp
+            omega
+        | succ j' =>
+          have hfind' : (defaultCalls (npy + 1) (nc + 1) ps).find? (fun c => c.1 == npy + 1 + j') = some e := by
+            have e1 : npy + 1 + j' = npy + (j' + 1) := by omega
+            rw [e1]
+            by_cases hd : p.hasDefault = true
+            · simp only [defaultCalls, hv, hd, if_true, List.find?_cons] at hfind
+              have : (npy == npy + (j' + 1)) = false := by
+                simp only [beq_eq_false_iff_ne, ne_eq]; omega
+              simpa [this] using hfind
+            · have hd' : p.hasDefault = false := by simpa using hd
+              simpa [defaultCalls, hv, hd'] using hfind
+          have hmem' := List.mem_of_find?_eq_some hfind'
+          have hb' := defaultCalls_bounds ps (npy + 1) (nc + 1) e hmem'
+          have hk : e.2 - nc = (e.2 - (nc + 1)) + 1 := by omega
+          rw [hk] at heq
+          simp only [List.take_succ_cons, callArgs, hv, if_true, List.length_cons, Nat.add_sub_add_right] at heq
+          cases s with
+          | none => simp [specArgs, hv] at heq
+          | some v =>
+            simp only [List.cons_append, specArgs, hv, if_true, List.cons.injEq, true_and] at heq
+            have := ih (npy + 1) (nc + 1) j' r e htr' hm' hfind' heq
+            simpa [prefixMask] using this
+    · have hv' : p.vis = false := by simpa using hv
+      have htr' : trailing ps = true := by simpa [trailing, hv'] using htr
+      have hm' : missingOk ps slots = true := by simpa [missingOk, hv'] using hm
+      have hfind' : (defaultCalls npy (nc + 1) ps).find? (fun c => c.1 == npy + j) = some e := by
+        simpa [defaultCalls, hv'] using hfind
+      have hmem' := List.mem_of_find?_eq_some hfind'
+      have hb' := defaultCalls_bounds ps npy (nc + 1) e hmem'
+      have hk : e.2 - nc = (e.2 - (nc + 1)) + 1 := by omega
+      rw [hk] at heq
+      simp only [List.take_succ_cons, callArgs, hv', Bool.false_eq_true, if_false, List.length_cons,
+        Nat.add_sub_add_right, List.cons_append, specArgs, List.cons.injEq, true_and] at heq
+      exact ih npy (nc + 1) j slots e htr' hm' hfind' heq
+
+/-! ### counting supplied arguments -/
+
+theorem lookupKw_isSome_mem : ∀ (kw : List (Nat × Val)) (m : Nat),
+    (lookupKw m kw).isSome = true → m ∈ kw.map (·.1)
+  | [], m, h => by simp [lookupKw] at h
+  | (k, v) :: kw, m, h => by
+    simp only [lookupKw] at h
+    by_cases hk : (k == m) = true
+    · simp only [beq_iff_eq] at hk
+      simp [hk]
+    · simp only [hk, Bool.false_eq_true, if_false] at h
+      have := lookupKw_isSome_mem kw m h
+      simp only [List.map_cons, List.mem_cons]
+      exact Or.inr this
+
+theorem countP_or_disjoint (p q : Nat → Bool) : ∀ l : List Nat,
+    (∀ x ∈ l, ¬ (p x = true ∧ q x = true)) →
+    l.countP (fun x => p x || q x) = l.countP p + l.countP q
+  | [], _ => by simp
+  | a :: l, h => by
+    have ih := countP_or_disjoint p q l (fun x hx => h x (List.mem_cons_of_mem _ hx))
+    have ha := h a (List.mem_cons_self ..)
+    simp only [List.countP_cons, ih]
+    cases hp : p a <;> cases hq : q a <;> simp_all <;> omega
+
+theorem countP_beq_one (k : Nat) : ∀ l : List Nat, l.Nodup → k ∈ l → l.countP (fun m => k == m) = 1
+  | [], _, h => by simp at h
+  | a :: l, hn, h => by
+    rw [List.nodup_cons] at hn
+    simp only [List.countP_cons]
+    by_cases hka : k = a
+    · subst hka
+      have : l.countP (fun m => k == m) = 0 := by
+        rw [List.countP_eq_zero]
+        intro x hx
+        simp only [beq_iff_eq]
+        intro hkx
+        subst hkx
+        exact hn.1 hx
+      simp [this]
+    · have hm : k ∈ l := by
+        rcases List.mem_cons.mp h with h1 | h1
+        · exact absurd h1 hka
+        · exact h1
+      have := countP_beq_one k l hn.2 hm
+      simp [this, hka]
+
+theorem count_lookup (names : List Nat) : ∀ kw : List (Nat × Val),
+    names.Nodup → (kw.map (·.1)).Nodup → (∀ e ∈ kw, e.1 ∈ names) →
+    names.countP (fun m => (lookupKw m kw).isSome) = kw.length
+  | [], _, _, _ => by simp [lookupKw]
+  | (k, v) :: kw, hn, hk, hsub => by
+    simp only [List.map_cons, List.nodup_cons] at hk
+    have ih := count_lookup names kw hn hk.2 (fun e he => hsub e (List.mem_cons_of_mem _ he))
+    have hfun : (fun m => (lookupKw m ((k, v) :: kw)).isSome) = (fun m => (k == m) || (lookupKw m kw).isSome) := by
+      funext m
+      simp only [lookupKw]
+      by_cases hkm : (k == m) = true <;> simp [hkm]
+    rw [hfun, countP_or_disjoint]
+    · rw [countP_beq_one k names hn (hsub (k, v) (List.mem_cons_self ..)), ih]
+      simp only [List.length_cons]; omega
+    · intro x _ hx
+      simp only [beq_iff_eq] at hx
+      obtain ⟨h1, h2⟩ := hx
+      subst h1
+      exact hk.1 (lookupKw_isSome_mem kw k h2)
+
+theorem supplied_count : ∀ (vis : List Param) (pos : List Val) (kw : List (Nat × Val)),
+    pos.length ≤ vis.length →
+    (supplied vis pos kw).countP (·.isSome)
+      = pos.length + ((vis.drop pos.length).map (·.name)).countP (fun m => (lookupKw m kw).isSome)
+  | [], pos, kw, h => by
+    have : pos = [] := by
+      cases pos with
+      | nil => rfl
+      | cons a l => simp at h
+    subst this
+    simp [supplied]
+  | p :: vs, [], kw, _ => by
+    have ih := supplied_count vs [] kw (by simp)
+    simp only [supplied, offered, List.tail_nil, List.countP_cons, List.length_nil, List.drop_zero, List.map_cons,
+      Nat.zero_add] at ih ⊢
+    rw [ih]
+  | p :: vs, v :: pos, kw, h => by
+    have ih := supplied_count vs pos kw (by simpa using h)
+    simp only [supplied, offered, List.tail_cons, List.countP_cons, Option.isSome_some, if_true, List.length_cons,
+      List.drop_succ_cons]
+    rw [ih]; omega
+
+/-- with at most one defaulted parameter the filled slots always form a prefix. -/
+theorem prefix_of_single_default : ∀ (ps : List Param) (slots : List (Option Val)),
+    trailing ps = true → missingOk ps slots = true → countDefaults ps ≤ 1 →
+    prefixMask (slots.countP (·.isSome)) slots = true
+  | [], slots, _, hm, _ => by
+    have : slots = [] := by simpa [missingOk] using hm
+    subst this; rfl
+  | p :: ps, slots, htr, hm, hc => by
+    by_cases hv : p.vis = true
+    · cases slots with
+      | nil => simp [missingOk, hv] at hm
+      | cons s r =>
+        cases s with
+        | some v =>
+          have hm' : missingOk ps r = true := by simpa [missingOk, hv] using hm
+          have htr' : trailing ps = true := by
+            by_cases hd : p.hasDefault = true
+            · exact trailing_of_allOpt ps (by simpa [trailing, hv, hd, allOpt] using htr)
+            · have hd' : p.hasDefault = false := by simpa using hd
+              simpa [trailing, hv, hd'] using htr
+          have hc' : countDefaults ps ≤ 1 := by
+            simp only [countDefaults, List.countP_cons] at hc ⊢
+            omega
+          have := prefix_of_single_default ps r htr' hm' hc'
+          simpa [List.countP_cons, prefixMask] using this
+        | none =>
+          have hd : p.hasDefault = true := by
+            simp only [missingOk, hv, if_true, Bool.and_eq_true] at hm
+            exact hm.1
+          have hm' : missingOk ps r = true := by
+            simp only [missingOk, hv, if_true, Bool.and_eq_true] at hm
+            exact hm.2
+          have hall : allOpt ps = true := by simpa [trailing, hv, hd, allOpt] using htr
+          have hps : ps = [] := by
+            cases ps with
+            | nil => rfl
+            | cons q qs =>
+              simp only [allOpt, List.all_cons, Bool.and_eq_true] at hall
+              simp only [countDefaults, List.countP_cons, hv, hd, Bool.and_self, if_true, hall.1.1, hall.1.2] at hc
+              omega
+          subst hps
+          have hr : r = [] := by simpa [missingOk] using hm'
+          subst hr
+          rfl
+    · have hv' : p.vis = false := by simpa using hv
+      have htr' : trailing ps = true := by simpa [trailing, hv'] using htr
+      have hm' : missingOk ps slots = true := by simpa [missingOk, hv'] using hm
+      have hc' : countDefaults ps ≤ 1 := by
+        simpa [countDefaults, List.countP_cons, hv'] using hc
+      exact prefix_of_single_default ps slots htr' hm' hc'
+
 theorem foldl_outs (ps : List Param) : ∀ acc : List Item,
     ps.foldl (fun acc p => if p.isOut then acc ++ [Item.outArg p.name] else acc) acc
       = acc ++ (ps.filter Param.isOut).map (fun p => Item.outArg p.name) := by
